@@ -31,6 +31,8 @@ pub struct GateCase {
     /// clock advance between the prefix and the start of call A (whole seconds around the ttl)
     pub prefix_age_ns: i64,
     pub a_key: u8,
+    /// verdict of the `invalidate_on` check for call A (functions that declare one)
+    pub a_inv: bool,
     pub suspend_at: u8,
     pub interleaved: Vec<GOp>,
     pub resume: bool,
@@ -69,7 +71,11 @@ pub fn decode(bytes: &[u8]) -> GateCase {
         _ => 0,
     };
     // with an aged prefix, call A mostly targets a key the prefix cached (an expired entry)
-    let a_key = if prefix_age_ns > 0 && !prefix.is_empty() && d.chance(2, 3) {
+    let a_inv = fd.invalidate_on && d.chance(3, 4);
+    let a_key = if fd.invalidate_on && !prefix.is_empty() && d.chance(4, 5) {
+        // a stale verdict needs a cached entry
+        prefix[d.choose(prefix.len())]
+    } else if prefix_age_ns > 0 && !prefix.is_empty() && d.chance(2, 3) {
         prefix[d.choose(prefix.len())]
     } else if d.chance(1, 5) {
         d.choose(5) as u8
@@ -82,7 +88,7 @@ pub fn decode(bytes: &[u8]) -> GateCase {
     let resume = d.chance(1, 2);
     let n_suffix = d.choose(5);
     let suffix = (0..n_suffix).map(|_| dec_op(&mut d, a_key, fd.ttl)).collect();
-    GateCase { fn_id: fd.id, prefix, prefix_age_ns, a_key, suspend_at, interleaved, resume, suffix }
+    GateCase { fn_id: fd.id, prefix, prefix_age_ns, a_key, a_inv, suspend_at, interleaved, resume, suffix }
 }
 
 pub fn describe(bytes: &[u8], _t: Tier) -> Value {
@@ -127,6 +133,7 @@ pub fn run_case(bytes: &[u8], _t: Tier) -> CaseOut {
     let nontrivial = std::cell::Cell::new(false);
     let suspended_cell = std::cell::Cell::new(false);
     let stage = std::cell::Cell::new("prefix");
+    let stale_suspended = std::cell::Cell::new(false);
 
     let apply = |op: &GOp, step: usize, phase: &'static str| -> Option<Violation> {
         let mut sim = sim.borrow_mut();
@@ -183,7 +190,7 @@ pub fn run_case(bytes: &[u8], _t: Tier) -> CaseOut {
             for g in 0..4 {
                 vrt::set_gate(g, (g as u8) < case.suspend_at);
             }
-            vrt::begin_call(true, ver_a, true, false);
+            vrt::begin_call(true, ver_a, true, case.a_inv);
             let mut fut = (corpus.call_async)(d.id, None, &args_a);
             let now = vrt::clock::now_ns();
             let first_poll = vrt::poll_once(fut.as_mut());
@@ -202,10 +209,30 @@ pub fn run_case(bytes: &[u8], _t: Tier) -> CaseOut {
                 };
                 let mut si = StepInfo::default();
                 match &first_poll {
+                    Poll::Ready(ret) if d.invalidate_on && case.a_inv && st.model.entries.contains_key(&key_a) => {
+                        *result.borrow_mut() = Some(Violation {
+                            signature: sig("stale-served"),
+                            clause: "stale-served".into(),
+                            step: 0,
+                            expected: format!("the check rejected the cached entry for {:?}: the body runs (and suspends at its first closed gate)", key_a),
+                            observed: format!("returned {:?} at once", ret),
+                        });
+                        return;
+                    }
                     Poll::Ready(ret) => {
                         st.model.lookup(&key_a, Some(ret_tag(ret)), &snap, now, &mut si);
                         st.hits += 1;
                         st.calls += 1;
+                    }
+                    Poll::Pending if d.invalidate_on && case.a_inv && st.model.entries.contains_key(&key_a) => {
+                        // the check rejected a cached entry: that lookup found the entry (a hit
+                        // in the statistics), the body runs, and until it has produced its
+                        // result the rejected entry is all the cache has for the key
+                        let tag = st.model.entries.get(&key_a).map(|e| e.tag);
+                        st.model.lookup(&key_a, tag, &snap, now, &mut si);
+                        st.hits += 1;
+                        st.calls += 1;
+                        stale_suspended.set(true);
                     }
                     Poll::Pending => {
                         st.model.lookup(&key_a, None, &snap, now, &mut si);
@@ -249,7 +276,7 @@ pub fn run_case(bytes: &[u8], _t: Tier) -> CaseOut {
             stage.set("resume-or-drop");
             if suspended {
                 if case.resume {
-                    vrt::begin_call(true, ver_a, true, false);
+                    vrt::begin_call(true, ver_a, true, case.a_inv);
                     let now = vrt::clock::now_ns();
                     let mut ret = None;
                     for _ in 0..16 {
@@ -353,6 +380,9 @@ pub fn run_case(bytes: &[u8], _t: Tier) -> CaseOut {
     }
     if nontrivial.get() {
         out.classes.push("interleaved_while_suspended");
+    }
+    if stale_suspended.get() {
+        out.classes.push("suspended_after_stale_verdict");
     }
     vrt::clock::unfreeze();
     out
